@@ -60,7 +60,10 @@ def gen_digits(rng, n, prefix):
         evs = rng.choice(["-", "-", "d1,d1,d1,d1,d1,d1,d1,d1,d1,d1,d1,d1", "d3,i,d5,d8", "d8", "d7", "d9,f3", "d4,e"])
         chunk = rng.choice([16384, 16384, 1, 3, 8, 9])
         pre = rng.choice([0, 0, 0, 2, 8])
-        cases.append(case(fn, ty, data, evs, pre, chunk, prefill, len(lead), prefix=prefix))
+        off = len(lead)
+        if rng.random() < 0.04:      # offsets beyond the data and at the very top of usize (guard arithmetic)
+            off = rng.choice([len(data), len(data) + 1, len(data) + 9, 2 ** 64 - 1 - rng.randrange(1, 12), 2 ** 64 - 9, 2 ** 63])
+        cases.append(case(fn, ty, data, evs, pre, chunk, prefill, off, prefix=prefix))
     return cases
 
 def gen_scan(rng, n, prefix, tier):
